@@ -285,6 +285,18 @@ pub fn run(ctx: &Ctx) -> i32 {
     });
     col.layer("agg", done, complete, json!({"max_len": amax, "statements": AGG_STMTS}));
 
+    // DISTINCT statements through every driver
+    {
+        let input: Vec<String> = [0usize, 1, 12, 2, 0, 5, 6, 3, 11, 4, 4].iter().map(|i| al[*i].to_string()).collect();
+        let mut cases: Vec<(String, String, Vec<String>, bool)> = Vec::new();
+        for (i, s) in stmts().iter().enumerate() {
+            cases.push((DEF.to_string(), s.to_string(), input.clone(), i % 2 == 0));
+        }
+        for (i, s) in AGG_STMTS.iter().enumerate() {
+            cases.push((DEF.to_string(), s.to_string(), input.clone(), i % 2 == 1));
+        }
+        crate::drivers::run_layer(&col, &cases, &|s| if s.contains("GROUP BY") { "distinct+aggregate".to_string() } else { "distinct".to_string() });
+    }
     finish(
         ctx,
         &col,
